@@ -7,7 +7,7 @@
    to self.stream).  Then: the balance theorem about sequences of calls in which these methods are run from their
    regenerated bodies. *)
 From Coq Require Import ZArith QArith List String Bool Lia.
-Require Import WV.base.Py WV.base.PyLink WV.gen.GenStream WV.proofs.PyNatural WV.model.C16Py.
+Require Import WV.base.Py WV.base.PyLink WV.gen.GenStream WV.gen.GenMatrix WV.proofs.PyNatural WV.model.C16Py.
 Require Import WV.proofs.C16_balance.
 Import ListNotations.
 Open Scope string_scope.
@@ -15,8 +15,14 @@ Open Scope list_scope.
 
 Definition getter_ops : qops := with_calls real_ops (fun _ _ => VErr "NameError").
 Definition ctm_impl (args : list val) : val := call_body getter_ops (Stream_ctm_args, Stream_ctm_body) args.
+(* Matrix(..) and `@` in Stream.transform: the regenerated constructor and __matmul__ of weasyprint/matrix.py
+   (gen/GenMatrix.v), linked (__matmul__ calls the constructor: depth 2) *)
+Definition mat_calls (f : string) (args : list val) : val := link GenMatrix_table 2 f args.
 Definition stream_calls (tagf : val -> string) (f : string) (args : list val) : val :=
-  if String.eqb f ".ctm" then ctm_impl args else pydyf_call tagf f args.
+  if String.eqb f ".ctm" then ctm_impl args
+  else if String.eqb f "Matrix" then mat_calls f args
+  else if String.eqb f ".__matmul__" then mat_calls f args
+  else pydyf_call tagf f args.
 Definition SO (tagf : val -> string) : qops := with_calls real_ops (stream_calls tagf).
 
 Definition snoc (l : list val) (x : val) : list val := l ++ [x].
@@ -217,9 +223,116 @@ Proof.
 Qed.
 End Raw.
 
+(* ------------------------------------------------------------------ transform, begin_marked_content *)
+Lemma Qplus_z x y : Qplus (x # 1) (y # 1) = ((x + y) # 1).
+Proof. unfold Qplus. cbn [Qnum Qden]. rewrite !Z.mul_1_r. reflexivity. Qed.
+Lemma Qmult_z x y : Qmult (x # 1) (y # 1) = ((x * y) # 1).
+Proof. reflexivity. Qed.
+
+Lemma gen_mat_ctor a b c d e f :
+  mat_calls "Matrix" [VNum (a # 1); VNum (b # 1); VNum (c # 1); VNum (d # 1); VNum (e # 1); VNum (f # 1); VNone] =
+  emat (a, b, c, d, e, f).
+Proof. reflexivity. Qed.
+
+Lemma gen_mat_mul m n : mat_calls ".__matmul__" [emat m; emat n] = emat (M.mat_mul m n).
+Proof.
+  destruct m as [[[[[a b] c] d] e] f], n as [[[[[a' b'] c'] d'] e'] f'].
+  unfold emat, vz, inject_Z, M.mat_mul.
+  match goal with |- ?L = _ => let L' := eval lazy -[Qplus Qmult] in L in change L with L' end.
+  rewrite !Qmult_z, !Qplus_z.
+  repeat (f_equal; try ring).
+Qed.
+
+Lemma setitem_last l x v : setitem (VList (snoc l x)) (VNum ((-1) # 1)) v = VList (snoc l v).
+Proof.
+  unfold snoc, setitem. change (as_int ((-1)#1)) with (Some (-1)%Z). cbv iota beta.
+  unfold norm_index. change (-1 <? 0)%Z with true. cbv iota.
+  rewrite app_length. cbn [List.length].
+  replace (-1 + Z.of_nat (List.length l + 1))%Z with (Z.of_nat (List.length l)) by lia.
+  assert (H0 : (Z.of_nat (List.length l) <? 0)%Z = false) by (apply Z.ltb_ge; lia). rewrite H0.
+  assert (H1 : (Z.of_nat (List.length l) <? Z.of_nat (List.length l + 1))%Z = true) by (apply Z.ltb_lt; lia). rewrite H1.
+  rewrite Nat2Z.id. f_equal. clear. induction l as [|y r IH]; [reflexivity|]. cbn [app List.length list_set]. now rewrite IH.
+Qed.
+
+Ltac ev ::= lazy -[exec_block prim_apply ctm_impl mat_calls Z.add Z.mul setitem snoc nonnil obs_self obs_err SO real_ops ocall qsub qeqb veq_k str_eqb Qeq_bool Z.eqb Z.of_nat].
+Ltac fix2 :=
+  match goal with
+  | |- context [mat_calls "Matrix" [VNum (?a # 1); VNum (?b # 1); VNum (?c # 1); VNum (?d # 1); VNum (?e # 1); VNum (?f # 1); VNone]] =>
+      rewrite (gen_mat_ctor a b c d e f)
+  | |- context [mat_calls ".__matmul__" [?y; ?x]] =>
+      match y with
+      | VList [VList [VNum (?a0 # 1); VNum (?b0 # 1); _]; VList [VNum (?c0 # 1); VNum (?d0 # 1); _]; VList [VNum (?e0 # 1); VNum (?f0 # 1); _]] =>
+      match x with
+      | VList [VList [VNum (?a # 1); VNum (?b # 1); _]; VList [VNum (?c # 1); VNum (?d # 1); _]; VList [VNum (?e # 1); VNum (?f # 1); _]] =>
+          change (mat_calls ".__matmul__" [y; x]) with (mat_calls ".__matmul__" [emat (a0, b0, c0, d0, e0, f0); emat (a, b, c, d, e, f)]);
+          rewrite (gen_mat_mul (a0, b0, c0, d0, e0, f0) (a, b, c, d, e, f))
+      end end
+  | |- context [setitem (VList (snoc ?l ?x)) (VNum (-1 # 1)) ?v] => rewrite (setitem_last l x v)
+  | |- context [veq_k ?O ?R ?e (VStr ?a) VNone ?K] => change (veq_k O R e (VStr a) VNone K) with (K false)
+  | |- context [veq_k ?O ?R ?e VNone VNone ?K] => change (veq_k O R e VNone VNone K) with (K true)
+  end.
+Ltac fixp ::= repeat (first [fix1 | fix2]; ev).
+
+Ltac step2 :=
+  match goal with
+  | |- exec_block ?O ?A ?kr ?ke [] ?rho ?k = _ => rewrite (exec_block_nil O A kr ke rho k); ev
+  | |- exec_block ?O ?A ?kr ?ke (SIf ?c ?th ?el :: ?l) ?rho ?k = _ =>
+      let p := fresh "p" in let Hp := fresh "Hp" in
+      let p1 := fresh "p" in let Hp1 := fresh "Hp" in
+      let p2 := fresh "p" in let Hp2 := fresh "Hp" in
+      remember l as p eqn:Hp; remember th as p1 eqn:Hp1; remember el as p2 eqn:Hp2;
+      rewrite (exec_block_cons O A kr ke (SIf c p1 p2) p rho k); rewrite exec_if; ev; fixp; subst p p1 p2
+  | |- exec_block ?O ?A ?kr ?ke (?s :: ?l) ?rho ?k = _ =>
+      let p := fresh "p" in let Hp := fresh "Hp" in
+      remember l as p eqn:Hp; rewrite (exec_block_cons O A kr ke s p rho k); ev; fixp; subst p
+  end.
+Ltac steps2 := match goal with |- _ = ?R => let rhs := fresh "rhs" in let Hr := fresh "Hr" in remember R as rhs eqn:Hr; repeat step2; subst rhs end.
+
+Section Raw2.
+Variable tagf : val -> string.
+Variables (mk : list val) (others : list (string * val)).
+Variables (cc ccs ca cas cf ofo res : val).
+Notation O := (SO tagf).
+
+Lemma transform_raw st C mark a b c d e f a' b' c' d' e' f' :
+  meth_out O stream_transform_body
+    [("self", obj st (snoc C (emat (a', b', c', d', e', f'))) cc ccs ca cas cf ofo res mk mark others);
+     ("a", VNum (a # 1)); ("b", VNum (b # 1)); ("c", VNum (c # 1)); ("d", VNum (d # 1)); ("e", VNum (e # 1)); ("f", VNum (f # 1))] =
+  inl (obj (snoc st (VList [VStr "cm"; emat (a, b, c, d, e, f)]))
+           (snoc C (emat (M.mat_mul (a, b, c, d, e, f) (a', b', c', d', e', f')))) cc ccs ca cas cf ofo res mk mark others, VNone).
+Proof. start stream_transform_body. steps2. reflexivity. Qed.
+Lemma transform_raw_nil st mark a b c d e f :
+  meth_out O stream_transform_body
+    [("self", obj st [] cc ccs ca cas cf ofo res mk mark others);
+     ("a", VNum (a # 1)); ("b", VNum (b # 1)); ("c", VNum (c # 1)); ("d", VNum (d # 1)); ("e", VNum (e # 1)); ("f", VNum (f # 1))] =
+  inr "IndexError".
+Proof. start stream_transform_body. steps2. reflexivity. Qed.
+
+Definition mc_box (et : string) (bf : list (string * val)) : val := VObj (("element_tag", VStr et) :: bf).
+Definition mc_tag (et : string) (tag : option string) : val :=
+  match tag with Some t => VStr t | None => VStr (tagf (VStr et)) end.
+Lemma begin_mc_raw st ct (b mcid : bool) et bf tag :
+  meth_out O stream_begin_marked_content_body
+    [("self", obj st ct cc ccs ca cas cf ofo res mk (VBool b) others); ("box", mc_box et bf); ("mcid", VBool mcid);
+     ("tag", eopt VStr tag)] =
+  inl (if b then
+         if mcid then
+           obj (st ++ [VList [VStr "/tag"]; VList [VStr "MCID"; VNum (Z.of_nat (List.length mk) # 1)]; VStr "b'BDC'"])
+               ct cc ccs ca cas cf ofo res (mk ++ [VList [mc_tag et tag; mc_box et bf]]) (VBool b) others
+         else obj (st ++ [VList [VStr "/tag"]; VStr "b'BMC'"]) ct cc ccs ca cas cf ofo res mk (VBool b) others
+       else obj st ct cc ccs ca cas cf ofo res mk (VBool b) others, VNone).
+Proof.
+  start stream_begin_marked_content_body. unfold mc_box, mc_tag.
+  destruct b, mcid, tag as [t|]; cbn [eopt]; steps2; reflexivity.
+Qed.
+End Raw2.
+
 (* ------------------------------------------------------------------ the regenerated methods compute the model *)
 Definition tied (o : M.op) : bool :=
-  match o with M.Push | M.Pop | M.BeginText | M.EndText | M.SetFont _ | M.EndMC => true | _ => false end.
+  match o with
+  | M.Push | M.Pop | M.BeginText | M.EndText | M.SetFont _ | M.EndMC | M.Transform _ => true
+  | _ => false
+  end.
 Definition src_call (tagf : val -> string) (o : M.op) (self : val) : (val * val) + string :=
   match o with
   | M.Push => meth_out (SO tagf) stream_push_state_body [("self", self)]
@@ -228,8 +341,22 @@ Definition src_call (tagf : val -> string) (o : M.op) (self : val) : (val * val)
   | M.EndText => meth_out (SO tagf) stream_end_text_body [("self", self)]
   | M.EndMC => meth_out (SO tagf) stream_end_marked_content_body [("self", self)]
   | M.SetFont f => meth_out (SO tagf) stream_set_font_size_body [("self", self); ("font", vz (fst f)); ("size", vz (snd f))]
+  | M.Transform m =>
+      let '(a, b, c, d, e, f) := m in
+      meth_out (SO tagf) stream_transform_body
+        [("self", self); ("a", vz a); ("b", vz b); ("c", vz c); ("d", vz d); ("e", vz e); ("f", vz f)]
   | _ => inr "not tied"
   end.
+(* begin_marked_content(box, mcid, tag): box any object whose element_tag is the str et, tag a str or None *)
+Definition mc_args := (string * list (string * val) * option string)%type.
+Definition src_begin_mc (tagf : val -> string) (x : mc_args) (mcid : bool) (self : val) : (val * val) + string :=
+  let '(et, bf, tag) := x in
+  meth_out (SO tagf) stream_begin_marked_content_body
+    [("self", self); ("box", mc_box et bf); ("mcid", VBool mcid); ("tag", eopt VStr tag)].
+(* what the call appends to self.marked *)
+Definition mc_marked (tagf : val -> string) (x : mc_args) (mcid : bool) (s : M.st) (mk : list val) : list val :=
+  let '(et, bf, tag) := x in
+  if M.markon s && mcid then mk ++ [VList [mc_tag tagf et tag; mc_box et bf]] else mk.
 Definition pop_err (s : M.st) : string := match M.ctms s with [] => "IndexError" | _ => "AssertionError" end.
 Definition err_of (o : M.op) (s : M.st) : string :=
   match o with M.Pop => pop_err s | _ => "IndexError" end.
@@ -273,80 +400,141 @@ Proof.
     + etransitivity; [apply set_font_some|]. cbn [fst snd].
       rewrite (Z.eqb_sym h h'), (Z.eqb_sym z z'). destruct ((h' =? h) && (z' =? z))%Z; prep; reflexivity.
     + etransitivity; [apply set_font_none|]. reflexivity.
+  - (* transform *) destruct m as [[[[[a b] c] d] e] f]. unfold M.m_transform, M.with_ctms, M.emit, vz, inject_Z. prep.
+    destruct ct as [|[[[[[a' b'] c'] d'] e'] f'] cr]; prep.
+    + apply transform_raw_nil.
+    + etransitivity; [apply transform_raw|]. reflexivity.
   - (* end_marked_content *) unfold M.m_end_mc, M.emit. prep.
     etransitivity; [apply end_mc_raw|]. destruct mo; prep; reflexivity.
 Qed.
 
+(* begin_marked_content: the model counts the items of self.marked (nmark), the source measures the list *)
+Theorem gen_begin_mc tagf mk others x mcid s : marked_ok mk s ->
+  src_begin_mc tagf x mcid (enc mk others s) = inl (enc (mc_marked tagf x mcid s mk) others (M.m_begin_mc mcid s), VNone) /\
+  marked_ok (mc_marked tagf x mcid s mk) (M.m_begin_mc mcid s).
+Proof.
+  intros Hm. destruct x as [[et bf] tag]. destruct s as [tk ct cc ccs ca cas cf ofo eg nm mo].
+  unfold marked_ok in *. cbn [M.nmark] in Hm. subst nm.
+  unfold src_begin_mc, mc_marked, M.m_begin_mc, enc. cbn [M.markon M.nmark M.toks M.emit].
+  split.
+  - etransitivity; [apply begin_mc_raw|].
+    destruct mo, mcid; cbn [andb M.emit M.toks M.ctms M.ccol M.ccols M.calpha M.calphas M.cfont M.ofont M.egs M.nmark M.markon];
+      rewrite ?map_rev_cons; cbn [etok]; unfold snoc, vz, inject_Z; rewrite <- ?app_assoc; reflexivity.
+  - destruct mo, mcid; cbn [andb M.emit M.nmark M.markon]; rewrite ?app_length; cbn [List.length]; lia.
+Qed.
+
 (* ------------------------------------------------------------------ sequences of calls *)
 (* A sequence of API calls on the object: push_state / pop_state / begin_text / end_text / set_font_size /
-   end_marked_content are executed by the interpreter on the bodies regenerated from the source; every other call by
-   [impl], any function on objects that agrees with the model (what the correspondence streams of harness/p_c16.py
-   check on the real Stream); it may extend the list `marked`. *)
+   end_marked_content / transform / begin_marked_content are executed by the interpreter on the bodies regenerated from
+   the source (a call carries the box and tag arguments that begin_marked_content reads); every other call by [impl],
+   any function on objects that agrees with the model (what the correspondence streams of harness/p_c16.py check on the
+   real Stream) and leaves self.marked as long as the model counts it. *)
+Definition call := (M.op * mc_args)%type.
 Section Lift.
 Variable tagf : val -> string.
 Variable others : list (string * val).
 Variable impl : M.op -> val -> option val.
-Definition impl_ok : Prop := forall o mk s, tied o = false ->
+Definition by_impl (o : M.op) : bool := match o with M.BeginMC _ => false | _ => negb (tied o) end.
+Definition impl_ok : Prop := forall o mk s, by_impl o = true -> marked_ok mk s ->
   match M.mstep o s with
-  | Some s' => exists mk', impl o (enc mk others s) = Some (enc mk' others s')
+  | Some s' => exists mk', impl o (enc mk others s) = Some (enc mk' others s') /\ marked_ok mk' s'
   | None => impl o (enc mk others s) = None
   end.
 Hypothesis Himpl : impl_ok.
 
-Definition gstep (o : M.op) (self : val) : option val :=
-  if tied o then match src_call tagf o self with inl (self', _) => Some self' | inr _ => None end
-  else impl o self.
-Fixpoint grun (ops : list M.op) (self : val) : option val :=
-  match ops with
+Definition gstep (c : call) (self : val) : option val :=
+  match fst c with
+  | M.BeginMC mcid => match src_begin_mc tagf (snd c) mcid self with inl (self', _) => Some self' | inr _ => None end
+  | o => if tied o then match src_call tagf o self with inl (self', _) => Some self' | inr _ => None end
+         else impl o self
+  end.
+Fixpoint grun (cs : list call) (self : val) : option val :=
+  match cs with
   | [] => Some self
-  | o :: r => match gstep o self with Some self' => grun r self' | None => None end
+  | c :: r => match gstep c self with Some self' => grun r self' | None => None end
   end.
 
-Lemma gstep_model o mk s :
-  match M.mstep o s with
-  | Some s' => exists mk', gstep o (enc mk others s) = Some (enc mk' others s')
-  | None => gstep o (enc mk others s) = None
+Lemma gstep_model c mk s : marked_ok mk s ->
+  match M.mstep (fst c) s with
+  | Some s' => exists mk', gstep c (enc mk others s) = Some (enc mk' others s') /\ marked_ok mk' s'
+  | None => gstep c (enc mk others s) = None
   end.
 Proof.
-  unfold gstep. destruct (tied o) eqn:T; [|now apply Himpl].
-  rewrite (gen_tied_step tagf mk others o s T). destruct (M.mstep o s); [exists mk|]; reflexivity.
+  intros Hm. destruct c as [o x]. cbn [fst].
+  assert (Hb : forall mcid, o = M.BeginMC mcid ->
+            exists mk', gstep (o, x) (enc mk others s) = Some (enc mk' others (M.m_begin_mc mcid s)) /\
+                        marked_ok mk' (M.m_begin_mc mcid s)).
+  { intros mcid ->. unfold gstep. cbn [fst snd]. destruct (gen_begin_mc tagf mk others x mcid s Hm) as [E K].
+    rewrite E. eexists; split; [reflexivity|exact K]. }
+  destruct (tied o) eqn:T.
+  - assert (G : gstep (o, x) (enc mk others s) =
+                match src_call tagf o (enc mk others s) with inl (self', _) => Some self' | inr _ => None end).
+    { unfold gstep. cbn [fst]. destruct o; try discriminate T; reflexivity. }
+    rewrite G, (gen_tied_step tagf mk others o s T).
+    destruct (M.mstep o s) as [s'|] eqn:E; [|reflexivity].
+    exists mk. split; [reflexivity|].
+    unfold marked_ok in *. rewrite <- Hm. clear G Hb.
+    destruct o; try discriminate T; cbn [M.mstep] in E;
+      unfold M.m_push, M.m_pop, M.m_transform in E;
+      repeat match type of E with context [match ?d with _ => _ end] => destruct d end;
+      try discriminate E; inversion E; subst;
+      unfold M.m_begin_text, M.m_end_text, M.m_set_font, M.m_end_mc;
+      repeat match goal with |- context [match ?d with _ => _ end] => destruct d end;
+      repeat match goal with |- context [if ?d then _ else _] => destruct d end; reflexivity.
+  - destruct o; try discriminate T;
+      try (apply (Himpl _ mk s); [reflexivity|exact Hm]).
+    cbn [M.mstep]. exact (Hb mcid eq_refl).
 Qed.
 
-Theorem grun_model ops mk s :
-  match M.run ops s with
-  | Some s' => exists mk', grun ops (enc mk others s) = Some (enc mk' others s')
-  | None => grun ops (enc mk others s) = None
+Theorem grun_model cs mk s : marked_ok mk s ->
+  match M.run (map fst cs) s with
+  | Some s' => exists mk', grun cs (enc mk others s) = Some (enc mk' others s') /\ marked_ok mk' s'
+  | None => grun cs (enc mk others s) = None
   end.
 Proof.
-  revert mk s. induction ops as [|o r IH]; intros mk s; cbn [grun M.run]; [exists mk; reflexivity|].
-  pose proof (gstep_model o mk s) as G. destruct (M.mstep o s) as [s1|].
-  - destruct G as [mk1 G]. rewrite G. apply IH.
+  revert mk s. induction cs as [|c r IH]; intros mk s Hm; cbn [grun M.run map]; [exists mk; split; [reflexivity|exact Hm]|].
+  pose proof (gstep_model c mk s Hm) as G. destruct (M.mstep (fst c) s) as [s1|].
+  - destruct G as [mk1 [G K]]. rewrite G. now apply IH.
   - now rewrite G.
 Qed.
 
 (* the balance theorem of proofs/C16_balance.v about sequences of the regenerated methods *)
-Theorem source_balanced (mark : bool) (d : M.egsd) (ops : list M.op) :
-  M.wb ops = true ->
-  exists s' mk', grun ops (enc [] others (M.fresh mark d)) = Some (enc mk' others s') /\
+Theorem source_balanced (mark : bool) (d : M.egsd) (cs : list call) :
+  M.wb (map fst cs) = true ->
+  exists s' mk', grun cs (enc [] others (M.fresh mark d)) = Some (enc mk' others s') /\
     M.nested (rev (M.toks s')) = true /\ M.dyck_q (rev (M.toks s')) = true /\ M.dyck_text (rev (M.toks s')) = true /\
     M.dyck_mc (rev (M.toks s')) = true /\ List.length (M.ctms s') = 1%nat.
 Proof.
-  intros W. destruct (balanced_calls_give_balanced_tokens mark d ops W) as [s' [R B]].
-  pose proof (grun_model ops [] (M.fresh mark d)) as G. rewrite R in G. destruct G as [mk' G].
+  intros W. destruct (balanced_calls_give_balanced_tokens mark d (map fst cs) W) as [s' [R B]].
+  assert (H0 : marked_ok [] (M.fresh mark d)) by reflexivity.
+  pose proof (grun_model cs [] (M.fresh mark d) H0) as G. rewrite R in G. destruct G as [mk' [G _]].
   exists s', mk'. split; [exact G|exact B].
 Qed.
 End Lift.
 
 (* the hypothesis on [impl] is satisfiable: the model itself, read through a decoder of the encoding, is such a function
-   whenever one exists; here: the constant sequences of tied calls need no [impl] at all *)
+   whenever one exists; here: a sequence of tied calls needs no [impl] at all *)
+Definition no_mc : mc_args := ("", [], None).
 Example ex_tied_only tagf others :
-  grun tagf (fun _ _ => None) [M.Push; M.BeginText; M.SetFont (3, 12)%Z; M.EndText; M.BeginText; M.EndText; M.Pop; M.Push; M.Pop]
+  grun tagf (fun _ _ => None)
+       (map (fun o => (o, no_mc)) [M.Push; M.BeginText; M.SetFont (3, 12)%Z; M.EndText; M.BeginText; M.EndText; M.Pop; M.Push;
+                                    M.Transform (2, 0, 0, 2, 5, 7)%Z; M.Pop])
        (enc [] others (M.fresh true [])) =
-  Some (enc [] others (M.mk [M.TQ; M.TET; M.Tfont (3, 12)%Z; M.TBT; M.Tq] [M.mat_id] None None None None None (Some (3, 12)%Z) [] 0 true)).
+  Some (enc [] others (M.mk [M.TQ; M.Tcm (2, 0, 0, 2, 5, 7)%Z; M.Tq; M.TQ; M.TET; M.Tfont (3, 12)%Z; M.TBT; M.Tq] [M.mat_id] None None None None None (Some (3, 12)%Z) [] 0 true)).
 Proof.
-  cbn [grun]. unfold gstep. cbn [tied].
-  repeat (rewrite gen_tied_step by reflexivity; cbv [M.mstep M.m_push M.m_pop M.m_begin_text M.m_end_text M.m_set_font M.fresh
+  cbn [grun map]. unfold gstep. cbn [tied fst snd].
+  repeat (rewrite gen_tied_step by reflexivity; cbv [M.mstep M.m_push M.m_pop M.m_begin_text M.m_end_text M.m_set_font M.m_transform M.fresh
     M.with_ctms M.with_toks M.with_fonts M.reset_caches M.emit M.opt_eqb M.font_eqb M.toks M.ctms M.cfont M.ofont M.ccol M.ccols
-    M.calpha M.calphas M.egs M.nmark M.markon fst snd Z.eqb Pos.eqb andb]).
+    M.calpha M.calphas M.egs M.nmark M.markon fst snd Z.eqb Pos.eqb andb M.mat_mul M.mat_id Z.mul Z.add Pos.mul Pos.add]).
   reflexivity.
+Qed.
+(* a marked-content sequence with an MCID: the tag is computed by get_marked_content_tag, the (tag, box) pair is kept *)
+Example ex_begin_mc tagf others :
+  grun tagf (fun _ _ => None) [(M.BeginMC true, ("p", [], None)); (M.EndMC, no_mc)] (enc [] others (M.fresh true [])) =
+  Some (enc [VList [VStr (tagf (VStr "p")); mc_box "p" []]] others
+            (M.mk [M.TEMC; M.TBDC; M.Tprops 0; M.Ttag] [M.mat_id] None None None None None None [] 1 true)).
+Proof.
+  cbn [grun]. unfold gstep. cbn [fst snd tied].
+  destruct (gen_begin_mc tagf [] others ("p", [], None) true (M.fresh true []) eq_refl) as [E _]. rewrite E.
+  rewrite gen_tied_step by reflexivity. reflexivity.
 Qed.
